@@ -1,1 +1,823 @@
-//! engine: totality (see DESIGN.md §4)
+//! engine E8: totality runner (see DESIGN.md §4, §5 C16)
+//!
+//! Two pieces:
+//!
+//! 1. [`CountingAlloc`] — a `#[global_allocator]` wrapper around `System` that tracks live bytes,
+//!    peak live bytes and the largest single request in *global* atomics (rayon workers allocate
+//!    on other threads). The static must live in the binary:
+//!    ```ignore
+//!    mzv::install_counting_allocator!();            // at the top level of src/bin/cNN.rs
+//!    let (r, stats) = totality::measure(|| decode(bytes));
+//!    ```
+//!    `measure` serialises measured closures with a process-wide lock; run one measured case at a
+//!    time per process (or one process per case stream, as the child runner below does).
+//!    Building with `RUSTFLAGS="--cfg mzv_no_counting_alloc"` (sanitizer builds) makes the macro
+//!    expand to nothing; `measure` then reports `installed: false` and zeros.
+//!
+//! 2. The child-process runner. The binary re-executes itself (`std::env::current_exe()`) with
+//!    `--child <shard file> --results <file> [--resume-unit U --resume-idx I]`. A shard file is a
+//!    JSON-lines list of *units* `{"id":u,"lo":a,"hi":b,"body":{...}}`; a unit stands for the cases
+//!    `(u, i)`, `a <= i < b`, whose meaning only the binary knows (`ChildRunner`). The child
+//!    applies `setrlimit(RLIMIT_AS)`, and processes its cases one by one in file order, each under
+//!    `common::catch` + `measure`, appending one JSON line per case to the results file *before*
+//!    starting the next case. If the child dies (abort, SIGSEGV, allocation failure, stack
+//!    overflow) the parent knows the killer — the first case in order without a result line —
+//!    records `Abort(signal)` / `Alloc`, and restarts the child right after that case. A per-case
+//!    wall-clock fence (no progress in the results file for `fence_secs`) kills the child; the
+//!    pending case is `Hang`, which callers must treat as *inconclusive*, never as a violation.
+//!
+//! Verdict per case: `Ok | Err | Panic(location,message) | Abort(signal) | Alloc(peak,input_len)
+//! | Hang`. Panics that the binary catches itself inside a case (stage-wise `catch`) are passed
+//! through as `events`.
+
+use std::{
+    alloc::{GlobalAlloc, Layout, System},
+    collections::VecDeque,
+    io::{BufRead, BufReader, Read, Seek, SeekFrom, Write},
+    path::{Path, PathBuf},
+    process::{Command, Stdio},
+    sync::{
+        atomic::{AtomicBool, AtomicU64, AtomicUsize, Ordering::SeqCst},
+        Arc, Mutex,
+    },
+    time::{Duration, Instant},
+};
+
+use serde_json::{json, Value as Json};
+
+use crate::common::{catch_any, PanicInfo};
+
+// ---------------------------------------------------------------------------------------------
+// 1. counting allocator
+// ---------------------------------------------------------------------------------------------
+
+static LIVE: AtomicUsize = AtomicUsize::new(0);
+static PEAK: AtomicUsize = AtomicUsize::new(0);
+static LARGEST: AtomicUsize = AtomicUsize::new(0);
+static N_ALLOCS: AtomicU64 = AtomicU64::new(0);
+static INSTALLED: AtomicBool = AtomicBool::new(false);
+static MEASURE_LOCK: Mutex<()> = Mutex::new(());
+
+/// marker the allocator writes to fd 2 when the system allocator refuses a request (the process
+/// is about to abort through `handle_alloc_error`); the parent greps the child's stderr for it
+pub const ALLOC_FAIL_MARK: &str = "MZV-ALLOC-FAIL size=";
+
+/// Counting wrapper around the system allocator. See the module documentation.
+pub struct CountingAlloc;
+
+impl CountingAlloc {
+    #[inline]
+    fn on_grow(size: usize) {
+        let live = LIVE.fetch_add(size, SeqCst).wrapping_add(size);
+        PEAK.fetch_max(live, SeqCst);
+    }
+    #[inline]
+    fn on_request(size: usize) {
+        if !INSTALLED.load(std::sync::atomic::Ordering::Relaxed) {
+            INSTALLED.store(true, SeqCst);
+        }
+        LARGEST.fetch_max(size, SeqCst);
+        N_ALLOCS.fetch_add(1, std::sync::atomic::Ordering::Relaxed);
+    }
+    /// async-signal-safe, allocation-free note on stderr
+    fn on_fail(size: usize) {
+        let mut buf = [0u8; 64];
+        let mut n = 0;
+        for b in ALLOC_FAIL_MARK.as_bytes() {
+            buf[n] = *b;
+            n += 1;
+        }
+        let mut digits = [0u8; 24];
+        let mut d = 0;
+        let mut v = size;
+        loop {
+            digits[d] = b'0' + (v % 10) as u8;
+            d += 1;
+            v /= 10;
+            if v == 0 {
+                break;
+            }
+        }
+        while d > 0 {
+            d -= 1;
+            buf[n] = digits[d];
+            n += 1;
+        }
+        buf[n] = b'\n';
+        n += 1;
+        unsafe {
+            libc::write(2, buf.as_ptr() as *const libc::c_void, n);
+        }
+    }
+}
+
+unsafe impl GlobalAlloc for CountingAlloc {
+    unsafe fn alloc(&self, l: Layout) -> *mut u8 {
+        Self::on_request(l.size());
+        let p = System.alloc(l);
+        if p.is_null() {
+            Self::on_fail(l.size());
+        } else {
+            Self::on_grow(l.size());
+        }
+        p
+    }
+    unsafe fn alloc_zeroed(&self, l: Layout) -> *mut u8 {
+        Self::on_request(l.size());
+        let p = System.alloc_zeroed(l);
+        if p.is_null() {
+            Self::on_fail(l.size());
+        } else {
+            Self::on_grow(l.size());
+        }
+        p
+    }
+    unsafe fn dealloc(&self, p: *mut u8, l: Layout) {
+        System.dealloc(p, l);
+        LIVE.fetch_sub(l.size(), SeqCst);
+    }
+    unsafe fn realloc(&self, p: *mut u8, l: Layout, new_size: usize) -> *mut u8 {
+        Self::on_request(new_size);
+        let q = System.realloc(p, l, new_size);
+        if q.is_null() {
+            Self::on_fail(new_size);
+        } else if new_size >= l.size() {
+            Self::on_grow(new_size - l.size());
+        } else {
+            LIVE.fetch_sub(l.size() - new_size, SeqCst);
+        }
+        q
+    }
+}
+
+/// Installs [`CountingAlloc`] as the global allocator of the *binary* that invokes it (no-op when
+/// built with `--cfg mzv_no_counting_alloc`, for sanitizer builds).
+#[macro_export]
+macro_rules! install_counting_allocator {
+    () => {
+        #[cfg(not(mzv_no_counting_alloc))]
+        #[global_allocator]
+        static MZV_GLOBAL_ALLOCATOR: $crate::engines::totality::CountingAlloc =
+            $crate::engines::totality::CountingAlloc;
+    };
+}
+
+#[derive(Clone, Copy, Debug, Default)]
+pub struct AllocStats {
+    /// peak live bytes during the closure, above the live bytes at its start
+    pub peak: usize,
+    /// largest single request during the closure
+    pub largest: usize,
+    /// number of allocation requests during the closure
+    pub requests: u64,
+    /// false when the binary did not install the counting allocator (numbers are zero then)
+    pub installed: bool,
+}
+
+/// Runs `f` and reports its allocation profile. Process-wide lock: measured closures never overlap.
+pub fn measure<T>(f: impl FnOnce() -> T) -> (T, AllocStats) {
+    let _g = MEASURE_LOCK.lock().unwrap_or_else(|e| e.into_inner());
+    let base = LIVE.load(SeqCst);
+    PEAK.store(base, SeqCst);
+    LARGEST.store(0, SeqCst);
+    let n0 = N_ALLOCS.load(SeqCst);
+    let r = f();
+    let stats = AllocStats {
+        peak: PEAK.load(SeqCst).saturating_sub(base),
+        largest: LARGEST.load(SeqCst),
+        requests: N_ALLOCS.load(SeqCst) - n0,
+        installed: INSTALLED.load(SeqCst),
+    };
+    (r, stats)
+}
+
+pub fn allocator_installed() -> bool {
+    // any allocation at all flips the flag; make sure one happened
+    let v = std::hint::black_box(vec![0u8; 32]);
+    drop(v);
+    INSTALLED.load(SeqCst)
+}
+
+/// The allocation bound of DESIGN §5 C16: `64·len(input) + honest peak + 16 MiB`.
+pub fn alloc_bound(input_len: usize, honest_peak: usize) -> usize {
+    64usize.saturating_mul(input_len).saturating_add(honest_peak).saturating_add(16 << 20)
+}
+
+// ---------------------------------------------------------------------------------------------
+// 2. units, verdicts
+// ---------------------------------------------------------------------------------------------
+
+/// A unit of work: the cases `(id, i)` for `lo <= i < hi`; `body` is opaque to the engine.
+#[derive(Clone, Debug)]
+pub struct Unit {
+    pub id: u64,
+    pub lo: u64,
+    pub hi: u64,
+    pub body: Json,
+}
+
+impl Unit {
+    pub fn cases(&self) -> u64 {
+        self.hi.saturating_sub(self.lo)
+    }
+    fn to_line(&self) -> String {
+        json!({"id": self.id, "lo": self.lo, "hi": self.hi, "body": self.body}).to_string()
+    }
+    fn from_line(s: &str) -> Option<Unit> {
+        let j: Json = serde_json::from_str(s).ok()?;
+        Some(Unit {
+            id: j.get("id")?.as_u64()?,
+            lo: j.get("lo")?.as_u64()?,
+            hi: j.get("hi")?.as_u64()?,
+            body: j.get("body")?.clone(),
+        })
+    }
+}
+
+#[derive(Clone, Debug, PartialEq)]
+pub enum Verdict {
+    Ok,
+    Err,
+    /// a panic that escaped the binary's own stage-wise catches
+    Panic(PanicInfo),
+    /// the child died on this case: signal number (or negative exit code), text of the stderr tail
+    Abort { signal: i32, stderr_tail: String },
+    /// peak live bytes over the bound (`aborted`: the allocator refused and the process aborted)
+    Alloc { peak: usize, largest: usize, input_len: usize, bound: usize, aborted: bool },
+    /// per-case fence fired — inconclusive, never a violation
+    Hang,
+}
+
+impl Verdict {
+    pub fn tag(&self) -> &'static str {
+        match self {
+            Verdict::Ok => "ok",
+            Verdict::Err => "err",
+            Verdict::Panic(_) => "panic",
+            Verdict::Abort { .. } => "abort",
+            Verdict::Alloc { .. } => "alloc",
+            Verdict::Hang => "hang",
+        }
+    }
+}
+
+/// What the binary's runner returns for a case it survived.
+#[derive(Clone, Debug, Default)]
+pub struct CaseReport {
+    /// did the (first-stage) decode return a value (`true`) or an error value (`false`)
+    pub ok: bool,
+    /// length of the untrusted input of this case (for the allocation bound)
+    pub input_len: usize,
+    /// free-form events (stage-wise caught panics, oracle findings, counters); must be small
+    pub events: Vec<Json>,
+}
+
+/// The binary's side of the child process.
+pub trait ChildRunner {
+    /// Peak live bytes of the honest counterpart of this unit's cases (measured by the runner with
+    /// [`measure`] and cached). Called outside any measurement.
+    fn baseline(&mut self, unit: &Unit) -> usize;
+    /// Runs case `(unit, idx)`. Stage-wise panics should be caught by the runner and reported as
+    /// events; a panic that escapes is caught by the engine and becomes `Verdict::Panic`.
+    /// `stage` may be called to leave a breadcrumb (written to the results file at once) before a
+    /// stage that may kill the process.
+    fn run(&mut self, unit: &Unit, idx: u64, stage: &mut dyn FnMut(&str)) -> CaseReport;
+}
+
+#[derive(Clone, Debug)]
+pub struct CaseResult {
+    pub unit: u64,
+    pub idx: u64,
+    pub verdict: Verdict,
+    pub peak: usize,
+    pub largest: usize,
+    pub input_len: usize,
+    pub baseline: usize,
+    /// wall time of the case inside the child, microseconds (0 when the child died)
+    pub micros: u64,
+    /// last stage breadcrumb written before the verdict (for Abort/Hang: where the child died)
+    pub stage: String,
+    pub events: Vec<Json>,
+}
+
+// ---------------------------------------------------------------------------------------------
+// 3. child side
+// ---------------------------------------------------------------------------------------------
+
+pub const DEFAULT_RLIMIT_AS: u64 = 8 << 30;
+
+pub fn apply_rlimit_as(bytes: u64) -> bool {
+    let lim = libc::rlimit {
+        rlim_cur: bytes as libc::rlim_t,
+        rlim_max: bytes as libc::rlim_t,
+    };
+    unsafe { libc::setrlimit(libc::RLIMIT_AS, &lim) == 0 }
+}
+
+fn read_units(path: &Path) -> Vec<Unit> {
+    let f = match std::fs::File::open(path) {
+        Ok(f) => f,
+        Err(_) => return vec![],
+    };
+    BufReader::new(f).lines().map_while(Result::ok).filter_map(|l| Unit::from_line(&l)).collect()
+}
+
+/// Entry point of the child process (`--child <shard> --results <file> [--resume-unit U
+/// --resume-idx I] [--rlimit-as BYTES]`, taken from `extra`). Never returns.
+pub fn child_main(extra: &std::collections::BTreeMap<String, String>, runner: &mut dyn ChildRunner) -> ! {
+    let shard = PathBuf::from(extra.get("child").cloned().unwrap_or_default());
+    let results = PathBuf::from(extra.get("results").cloned().unwrap_or_default());
+    let resume: Option<(u64, u64)> = match (
+        extra.get("resume-unit").and_then(|s| s.parse().ok()),
+        extra.get("resume-idx").and_then(|s| s.parse().ok()),
+    ) {
+        (Some(u), Some(i)) => Some((u, i)),
+        _ => None,
+    };
+    let rlimit = extra.get("rlimit-as").and_then(|s| s.parse().ok()).unwrap_or(DEFAULT_RLIMIT_AS);
+    let rlimit_ok = if rlimit > 0 { apply_rlimit_as(rlimit) } else { true };
+
+    let units = read_units(&shard);
+    let mut out = match std::fs::OpenOptions::new().create(true).append(true).open(&results) {
+        Ok(f) => f,
+        Err(e) => {
+            eprintln!("child: cannot open results file {}: {e}", results.display());
+            std::process::exit(3);
+        }
+    };
+    let _ = writeln!(
+        out,
+        "{}",
+        json!({"hello": true, "rlimit_ok": rlimit_ok, "alloc": allocator_installed(), "units": units.len()})
+    );
+
+    // `resume` = the killer of the previous incarnation: skip everything up to and including it
+    let out = std::cell::RefCell::new(out);
+    let mut skipping = resume.is_some();
+    for unit in &units {
+        let mut baseline: Option<usize> = None;
+        for idx in unit.lo..unit.hi {
+            if skipping {
+                if Some((unit.id, idx)) == resume {
+                    skipping = false;
+                }
+                continue;
+            }
+            let base = match baseline {
+                Some(b) => b,
+                None => {
+                    // the honest counterpart may itself crash: leave a breadcrumb first
+                    let _ = writeln!(out.borrow_mut(), "{}", json!({"u": unit.id, "i": idx, "st": "baseline"}));
+                    let b = catch_any(|| runner.baseline(unit)).unwrap_or(0);
+                    baseline = Some(b);
+                    let _ = writeln!(out.borrow_mut(), "{}", json!({"u": unit.id, "i": idx, "st": "", "bs": b}));
+                    b
+                }
+            };
+            let t_case = Instant::now();
+            let mut stage_sink = |s: &str| {
+                let _ = writeln!(out.borrow_mut(), "{}", json!({"u": unit.id, "i": idx, "st": s}));
+            };
+            let (r, stats) = measure(|| catch_any(|| runner.run(unit, idx, &mut stage_sink)));
+            let mut line = serde_json::Map::new();
+            line.insert("u".into(), json!(unit.id));
+            line.insert("i".into(), json!(idx));
+            line.insert("pk".into(), json!(stats.peak));
+            line.insert("us".into(), json!(t_case.elapsed().as_micros() as u64));
+            match r {
+                Ok(rep) => {
+                    let bound = alloc_bound(rep.input_len, base);
+                    let over = stats.installed && stats.peak > bound;
+                    line.insert("s".into(), json!(if over { "A" } else if rep.ok { "K" } else { "E" }));
+                    line.insert("n".into(), json!(rep.input_len));
+                    if over {
+                        line.insert("lg".into(), json!(stats.largest));
+                        line.insert("bd".into(), json!(bound));
+                        line.insert("bs".into(), json!(base));
+                    }
+                    if !rep.events.is_empty() {
+                        line.insert("ev".into(), Json::Array(rep.events));
+                    }
+                }
+                Err(p) => {
+                    line.insert("s".into(), json!("P"));
+                    line.insert("msg".into(), json!(p.message));
+                    line.insert("loc".into(), json!(p.location));
+                    line.insert("file".into(), json!(p.file));
+                }
+            }
+            let _ = writeln!(out.borrow_mut(), "{}", Json::Object(line));
+        }
+    }
+    let mut out = out.into_inner();
+    let _ = writeln!(out, "{}", json!({"done": true}));
+    let _ = out.flush();
+    std::process::exit(0);
+}
+
+// ---------------------------------------------------------------------------------------------
+// 4. parent side
+// ---------------------------------------------------------------------------------------------
+
+#[derive(Clone, Debug)]
+pub struct ParentCfg {
+    /// concurrent children
+    pub max_children: usize,
+    /// `RLIMIT_AS` applied by each child (0 = none)
+    pub rlimit_as: u64,
+    /// no new result line for this long ⇒ kill the child, pending case = `Hang`
+    pub fence_secs: u64,
+    /// directory for shard / result / stderr files
+    pub scratch: PathBuf,
+    /// arguments passed through to every child (`--seed`, `--tier`, corpus path, ...)
+    pub child_args: Vec<String>,
+    /// environment for children (e.g. `RAYON_NUM_THREADS`)
+    pub child_env: Vec<(String, String)>,
+    /// a shard that needed more restarts than this is abandoned (remaining cases unreported)
+    pub max_restarts_per_shard: u64,
+}
+
+#[derive(Clone, Debug, Default)]
+pub struct ParentStats {
+    pub children_spawned: u64,
+    pub restarts: u64,
+    pub cases_reported: u64,
+    pub cases_unreported: u64,
+    pub abandoned_shards: u64,
+    pub rlimit_failures: u64,
+    pub allocator_missing: u64,
+    pub notes: Vec<String>,
+}
+
+/// `<dir of current_exe>/../scratch/<name>-<pid>` (i.e. `/verif/target*/scratch/...`).
+pub fn scratch_dir(name: &str) -> PathBuf {
+    let exe = std::env::current_exe().unwrap_or_else(|_| PathBuf::from("/verif/target/release/x"));
+    let base = exe.parent().and_then(|p| p.parent()).map(|p| p.to_path_buf()).unwrap_or_else(|| PathBuf::from("/verif/target"));
+    let d = base.join("scratch").join(format!("{name}-{}", std::process::id()));
+    let _ = std::fs::create_dir_all(&d);
+    d
+}
+
+pub fn remove_scratch(dir: &Path) {
+    let _ = std::fs::remove_dir_all(dir);
+}
+
+fn next_case(units: &[Unit], after: Option<(u64, u64)>) -> Option<(u64, u64)> {
+    // first case in shard order strictly after `after` (None = the very first case)
+    let mut passed = after.is_none();
+    for u in units {
+        for i in u.lo..u.hi {
+            if passed {
+                return Some((u.id, i));
+            }
+            if Some((u.id, i)) == after {
+                passed = true;
+            }
+        }
+    }
+    None
+}
+
+struct Parsed {
+    results: Vec<CaseResult>,
+    last_done: Option<(u64, u64)>,
+    /// breadcrumbs seen after the last completed case: (unit, idx, stage)
+    pending_stage: Option<(u64, u64, String)>,
+    done: bool,
+    hello: Option<Json>,
+}
+
+fn parse_results(text: &str, baselines: &mut std::collections::HashMap<u64, usize>) -> Parsed {
+    let mut p = Parsed { results: vec![], last_done: None, pending_stage: None, done: false, hello: None };
+    for l in text.lines() {
+        let j: Json = match serde_json::from_str(l) {
+            Ok(j) => j,
+            Err(_) => continue, // a torn last line
+        };
+        if j.get("done").is_some() {
+            p.done = true;
+            continue;
+        }
+        if j.get("hello").is_some() {
+            p.hello = Some(j);
+            continue;
+        }
+        let (u, i) = match (j.get("u").and_then(|x| x.as_u64()), j.get("i").and_then(|x| x.as_u64())) {
+            (Some(u), Some(i)) => (u, i),
+            _ => continue,
+        };
+        if let Some(st) = j.get("st").and_then(|x| x.as_str()) {
+            if let Some(b) = j.get("bs").and_then(|x| x.as_u64()) {
+                baselines.insert(u, b as usize);
+            }
+            p.pending_stage = Some((u, i, st.to_string()));
+            continue;
+        }
+        let s = j.get("s").and_then(|x| x.as_str()).unwrap_or("?");
+        let peak = j.get("pk").and_then(|x| x.as_u64()).unwrap_or(0) as usize;
+        let input_len = j.get("n").and_then(|x| x.as_u64()).unwrap_or(0) as usize;
+        let largest = j.get("lg").and_then(|x| x.as_u64()).unwrap_or(0) as usize;
+        if let Some(b) = j.get("bs").and_then(|x| x.as_u64()) {
+            baselines.insert(u, b as usize);
+        }
+        let verdict = match s {
+            "K" => Verdict::Ok,
+            "E" => Verdict::Err,
+            "A" => Verdict::Alloc {
+                peak,
+                largest,
+                input_len,
+                bound: j.get("bd").and_then(|x| x.as_u64()).unwrap_or(0) as usize,
+                aborted: false,
+            },
+            "P" => Verdict::Panic(PanicInfo {
+                message: j.get("msg").and_then(|x| x.as_str()).unwrap_or("").to_string(),
+                location: j.get("loc").and_then(|x| x.as_str()).unwrap_or("?").to_string(),
+                file: j.get("file").and_then(|x| x.as_str()).unwrap_or("?").to_string(),
+            }),
+            _ => continue,
+        };
+        let stage = match &p.pending_stage {
+            Some((su, si, st)) if *su == u && *si == i => st.clone(),
+            _ => String::new(),
+        };
+        p.results.push(CaseResult {
+            unit: u,
+            idx: i,
+            verdict,
+            peak,
+            largest,
+            input_len,
+            baseline: baselines.get(&u).copied().unwrap_or(0),
+            micros: j.get("us").and_then(|x| x.as_u64()).unwrap_or(0),
+            stage,
+            events: j.get("ev").and_then(|x| x.as_array()).cloned().unwrap_or_default(),
+        });
+        p.last_done = Some((u, i));
+        p.pending_stage = None;
+    }
+    p
+}
+
+fn tail(path: &Path, max: usize) -> String {
+    let mut s = String::new();
+    if let Ok(mut f) = std::fs::File::open(path) {
+        let len = f.metadata().map(|m| m.len()).unwrap_or(0);
+        let _ = f.seek(SeekFrom::Start(len.saturating_sub(max as u64)));
+        let mut b = vec![];
+        let _ = f.read_to_end(&mut b);
+        s = String::from_utf8_lossy(&b).to_string();
+    }
+    s
+}
+
+enum ChildEnd {
+    Exited(std::process::ExitStatus),
+    Fenced,
+    SpawnFailed(String),
+}
+
+/// Runs one shard to completion (with restarts). `sink` receives every case result in order.
+fn run_shard(
+    cfg: &ParentCfg,
+    shard_no: usize,
+    units: &[Unit],
+    sink: &Mutex<&mut (dyn FnMut(CaseResult) + Send)>,
+    stats: &Mutex<ParentStats>,
+) {
+    let shard_file = cfg.scratch.join(format!("shard-{shard_no}.jsonl"));
+    {
+        let mut f = match std::fs::File::create(&shard_file) {
+            Ok(f) => f,
+            Err(e) => {
+                stats.lock().unwrap().notes.push(format!("cannot write shard file: {e}"));
+                stats.lock().unwrap().abandoned_shards += 1;
+                return;
+            }
+        };
+        for u in units {
+            let _ = writeln!(f, "{}", u.to_line());
+        }
+    }
+    let total: u64 = units.iter().map(|u| u.cases()).sum();
+    let mut reported: u64 = 0;
+    let mut resume: Option<(u64, u64)> = None; // last case that must be skipped
+    let mut restarts = 0u64;
+    let mut baselines = std::collections::HashMap::new();
+    let exe = std::env::current_exe().expect("current_exe");
+
+    loop {
+        if next_case(units, resume).is_none() {
+            break;
+        }
+        let res_file = cfg.scratch.join(format!("res-{shard_no}-{restarts}.jsonl"));
+        let err_file = cfg.scratch.join(format!("err-{shard_no}-{restarts}.txt"));
+        let _ = std::fs::remove_file(&res_file);
+        let mut cmd = Command::new(&exe);
+        cmd.args(&cfg.child_args)
+            .arg("--child")
+            .arg(&shard_file)
+            .arg("--results")
+            .arg(&res_file)
+            .arg("--rlimit-as")
+            .arg(cfg.rlimit_as.to_string());
+        if let Some((u, i)) = resume {
+            cmd.arg("--resume-unit").arg(u.to_string()).arg("--resume-idx").arg(i.to_string());
+        }
+        for (k, v) in &cfg.child_env {
+            cmd.env(k, v);
+        }
+        cmd.stdin(Stdio::null()).stdout(Stdio::null());
+        match std::fs::File::create(&err_file) {
+            Ok(f) => {
+                cmd.stderr(Stdio::from(f));
+            }
+            Err(_) => {
+                cmd.stderr(Stdio::null());
+            }
+        }
+        stats.lock().unwrap().children_spawned += 1;
+        let end = match cmd.spawn() {
+            Err(e) => ChildEnd::SpawnFailed(e.to_string()),
+            Ok(mut child) => {
+                let mut last_len = 0u64;
+                let mut last_progress = Instant::now();
+                loop {
+                    match child.try_wait() {
+                        Ok(Some(st)) => break ChildEnd::Exited(st),
+                        Ok(None) => {}
+                        Err(e) => break ChildEnd::SpawnFailed(format!("wait: {e}")),
+                    }
+                    std::thread::sleep(Duration::from_millis(25));
+                    let len = std::fs::metadata(&res_file).map(|m| m.len()).unwrap_or(0);
+                    if len != last_len {
+                        last_len = len;
+                        last_progress = Instant::now();
+                    } else if last_progress.elapsed() > Duration::from_secs(cfg.fence_secs) {
+                        let _ = child.kill();
+                        let _ = child.wait();
+                        break ChildEnd::Fenced;
+                    }
+                }
+            }
+        };
+
+        let text = std::fs::read_to_string(&res_file).unwrap_or_default();
+        let parsed = parse_results(&text, &mut baselines);
+        if let Some(h) = &parsed.hello {
+            let mut s = stats.lock().unwrap();
+            if h.get("rlimit_ok").and_then(|x| x.as_bool()) == Some(false) {
+                s.rlimit_failures += 1;
+            }
+            if h.get("alloc").and_then(|x| x.as_bool()) == Some(false) {
+                s.allocator_missing += 1;
+            }
+        }
+        let n_new = parsed.results.len() as u64;
+        {
+            let mut g = sink.lock().unwrap();
+            for r in parsed.results {
+                (*g)(r);
+            }
+        }
+        reported += n_new;
+        let last = parsed.last_done.or(resume);
+
+        if parsed.done {
+            break;
+        }
+        // the child died (or was fenced): attribute to the first case without a result
+        let killer = next_case(units, last);
+        let Some((ku, ki)) = killer else { break };
+        let stage = match &parsed.pending_stage {
+            Some((su, si, st)) if *su == ku && *si == ki => st.clone(),
+            _ => String::new(),
+        };
+        let err_tail = tail(&err_file, 2000);
+        if stage == "baseline" {
+            // the *honest* counterpart killed the child: a harness-level problem, not a finding.
+            // Skip the rest of this unit chunk (its cases stay unreported => inconclusive).
+            let hi = units.iter().find(|u| u.id == ku && u.lo <= ki && ki < u.hi).map(|u| u.hi).unwrap_or(ki + 1);
+            let mut s = stats.lock().unwrap();
+            s.notes.push(format!(
+                "shard {shard_no}: child died while measuring the honest baseline of unit {ku} ({}); unit skipped",
+                err_tail.lines().last().unwrap_or("")
+            ));
+            drop(s);
+            resume = Some((ku, hi - 1));
+            restarts += 1;
+            stats.lock().unwrap().restarts += 1;
+            if restarts > cfg.max_restarts_per_shard {
+                break;
+            }
+            continue;
+        }
+        let verdict = match &end {
+            ChildEnd::Fenced => Verdict::Hang,
+            ChildEnd::SpawnFailed(e) => {
+                let mut s = stats.lock().unwrap();
+                s.notes.push(format!("shard {shard_no}: spawn failed: {e}"));
+                s.abandoned_shards += 1;
+                s.cases_unreported += total - reported;
+                return;
+            }
+            ChildEnd::Exited(st) => {
+                use std::os::unix::process::ExitStatusExt;
+                let signal = st.signal().unwrap_or_else(|| -(st.code().unwrap_or(0)));
+                if let Some(pos) = err_tail.rfind(ALLOC_FAIL_MARK) {
+                    let size: usize = err_tail[pos + ALLOC_FAIL_MARK.len()..]
+                        .chars()
+                        .take_while(|c| c.is_ascii_digit())
+                        .collect::<String>()
+                        .parse()
+                        .unwrap_or(0);
+                    Verdict::Alloc { peak: size, largest: size, input_len: 0, bound: 0, aborted: true }
+                } else {
+                    let n = err_tail.chars().count();
+                    Verdict::Abort { signal, stderr_tail: err_tail.chars().skip(n.saturating_sub(600)).collect() }
+                }
+            }
+        };
+        {
+            let mut g = sink.lock().unwrap();
+            (*g)(CaseResult {
+                unit: ku,
+                idx: ki,
+                verdict,
+                peak: 0,
+                largest: 0,
+                input_len: 0,
+                baseline: baselines.get(&ku).copied().unwrap_or(0),
+                micros: 0,
+                stage,
+                events: vec![],
+            });
+        }
+        reported += 1;
+        resume = Some((ku, ki));
+        restarts += 1;
+        stats.lock().unwrap().restarts += 1;
+        if restarts > cfg.max_restarts_per_shard {
+            let mut s = stats.lock().unwrap();
+            s.notes.push(format!("shard {shard_no}: more than {} restarts, abandoned", cfg.max_restarts_per_shard));
+            s.abandoned_shards += 1;
+            break;
+        }
+    }
+    let mut s = stats.lock().unwrap();
+    s.cases_reported += reported;
+    s.cases_unreported += total.saturating_sub(reported);
+}
+
+/// Runs all shards with at most `cfg.max_children` children at a time. Shards are started in the
+/// given order (put the long ones first).
+pub fn run_shards(
+    cfg: &ParentCfg,
+    shards: Vec<Vec<Unit>>,
+    sink: &mut (dyn FnMut(CaseResult) + Send),
+) -> ParentStats {
+    let _ = std::fs::create_dir_all(&cfg.scratch);
+    let stats = Mutex::new(ParentStats::default());
+    let queue: Arc<Mutex<VecDeque<(usize, Vec<Unit>)>>> =
+        Arc::new(Mutex::new(shards.into_iter().enumerate().collect()));
+    let sink = Mutex::new(sink);
+    std::thread::scope(|scope| {
+        for _ in 0..cfg.max_children.max(1) {
+            let queue = queue.clone();
+            let sink = &sink;
+            let stats = &stats;
+            scope.spawn(move || loop {
+                let job = queue.lock().unwrap().pop_front();
+                let Some((no, units)) = job else { break };
+                run_shard(cfg, no, &units, sink, stats);
+            });
+        }
+    });
+    stats.into_inner().unwrap()
+}
+
+/// Splits units into shards of roughly `target_cases` cases each (a unit is split when larger).
+pub fn shard_units(units: Vec<Unit>, target_cases: u64) -> Vec<Vec<Unit>> {
+    let target = target_cases.max(1);
+    let mut shards = vec![];
+    let mut cur: Vec<Unit> = vec![];
+    let mut cur_n = 0u64;
+    for u in units {
+        let mut lo = u.lo;
+        while lo < u.hi {
+            let room = target - cur_n;
+            let take = room.min(u.hi - lo);
+            cur.push(Unit { id: u.id, lo, hi: lo + take, body: u.body.clone() });
+            cur_n += take;
+            lo += take;
+            if cur_n >= target {
+                shards.push(std::mem::take(&mut cur));
+                cur_n = 0;
+            }
+        }
+    }
+    if !cur.is_empty() {
+        shards.push(cur);
+    }
+    shards
+}
